@@ -1,6 +1,14 @@
-"""cell_type_mapper.utils.sparse_utils  (C05.b/c, C13.f)
+"""cell_type_mapper.utils.sparse_utils  (C05.b/c/d, C13.f)  + utils.utils.merge_index_list
 
 CSR view: `indptr` monotone within [0, len(indices)], len(data) == len(indices).
+
+proved (full):  _load_sparse, _csr_to_dense, _merge_csr_chunk, merge_csr, precompute_indptr,
+                downsample_indptr
+bounded:        merge_index_list (exhaustive), _load_disjoint_csr (exhaustive row lists),
+                mask_indptr_by_indices, precompute_indptr#perm (the clause that needs a sum over a
+                permutation)
+Prefix sums in the clauses (`cat_off`, `row_off`, `span_off`) are specification functions defined
+in pyvc/ext/sparse.py (recursive definition + monotonicity / frame lemmas, trusted).
 """
 from pyvc.contracts import contract
 
@@ -97,4 +105,394 @@ contract(
         "for k in range(len(indices))), result[i, j] == 0) "
         "for i in range(n_rows) for j in range(old(n_cols)))",
     ]},
+)
+
+
+# ---------------------------------------------------------------------------------------------
+# C13.f / C05.d  pointer arithmetic of the CSR re-assembly helpers
+# ---------------------------------------------------------------------------------------------
+def _gen_merge_chunk(rng, size):
+    import numpy as np
+    g = _gen_csr(rng, size, with_spec=False)
+    n_in, r_in = len(g['data']), len(g['indptr']) - 1
+    idx0, ptr0 = rng.randint(0, 3), rng.randint(0, 3)
+    n, r = idx0 + n_in + rng.randint(0, 3), ptr0 + r_in + rng.randint(0, 2)
+    return dict(data_in=g['data'], indices_in=g['indices'], indptr_in=g['indptr'],
+                data=np.full(n, -1.0), indices=np.full(n, -1, dtype=int),
+                indptr=np.full(max(r, 0), -1, dtype=int), idx0=idx0, ptr0=ptr0)
+
+
+contract(
+    M + '_merge_csr_chunk',
+    properties=['C13', 'C05'],
+    native=dict(gen=_gen_merge_chunk),
+    params=dict(data_in='Arr[Real]', indices_in='Arr[Int]', indptr_in='Arr[Int]',
+                data='Arr[Real]', indices='Arr[Int]', indptr='Arr[Int]', idx0='Int', ptr0='Int'),
+    returns='Tuple[Arr[Real],Arr[Int],Arr[Int],Int,Int]',
+    mutates=['data', 'indices', 'indptr'],
+    requires=[
+        "len(indptr_in) >= 1", "len(indices_in) == len(data_in)", "len(indices) == len(data)",
+        "0 <= idx0 and idx0 + len(data_in) <= len(data)",
+        "0 <= ptr0 and ptr0 + len(indptr_in) - 1 <= len(indptr)",
+    ],
+    ensures=[
+        "result[3] == idx0 + len(data_in)", "result[4] == ptr0 + len(indptr_in) - 1",
+        "len(result[0]) == len(old(data)) and len(result[1]) == len(old(indices)) "
+        "and len(result[2]) == len(old(indptr))",
+        # the piece is copied to [idx0, idx1) ...
+        "all(result[0][idx0 + e] == data_in[e] for e in range(len(data_in)))",
+        "all(result[1][idx0 + e] == indices_in[e] for e in range(len(indices_in)))",
+        # ... its pointers (all but the last) are re-based by idx0 and stored at [ptr0, ptr1) ...
+        "all(result[2][ptr0 + j] == indptr_in[j] + idx0 for j in range(len(indptr_in) - 1))",
+        "len(indptr_in) < 2 or result[2][ptr0] == indptr_in[0] + idx0",
+        # ... and nothing else changes
+        "all(result[0][e] == old(data)[e] for e in range(len(old(data))) if e < idx0 or e >= idx0 + len(data_in))",
+        "all(result[1][e] == old(indices)[e] for e in range(len(old(indices))) if e < idx0 or e >= idx0 + len(data_in))",
+        "all(result[2][j] == old(indptr)[j] for j in range(len(old(indptr))) "
+        "if j < ptr0 or j >= ptr0 + len(indptr_in) - 1)",
+        # the arrays handed back are the arrays passed in (updated in place)
+        "len(data) == len(result[0]) and all(result[0][e] == data[e] for e in range(len(data)))",
+        "len(indices) == len(result[1]) and all(result[1][e] == indices[e] for e in range(len(indices)))",
+        "len(indptr) == len(result[2]) and all(result[2][j] == indptr[j] for j in range(len(indptr)))",
+    ],
+)
+
+
+WF_PTR = lambda p: [   # noqa: E731   monotone pointer array (pairwise form: z3 does no induction)
+    f"len({p}) >= 1",
+    f"all({p}[i] <= {p}[j] for i in range(len({p})) for j in range(len({p})) if i <= j)",
+]
+
+
+def _gen_reorder(rng, size, perm=True):
+    import numpy as np
+    g = _gen_csr(rng, size, with_spec=False)
+    n = len(g['indptr']) - 1
+    order = list(range(n))
+    rng.shuffle(order)
+    if not perm and n > 0 and rng.random() < 0.5:
+        order = [rng.randrange(n) for _ in range(n)]
+    return dict(indptr_in=g['indptr'], row_order=np.array(order, dtype=int))
+
+
+_SPAN_IN = "indptr_in[row_order[k] + 1] - indptr_in[row_order[k]]"
+
+contract(
+    M + 'precompute_indptr',
+    properties=['C13'],
+    native=dict(gen=lambda rng, size: _gen_reorder(rng, size, perm=False)),
+    params=dict(indptr_in='Arr[Int]', row_order='Arr[Int]'),
+    returns='Arr[Int]',
+    requires=WF_PTR('indptr_in') + [
+        "len(row_order) == len(indptr_in) - 1",
+        "all(0 <= row_order[k] < len(indptr_in) - 1 for k in range(len(row_order)))",
+    ],
+    ensures=[
+        "len(result) == len(indptr_in)",
+        "implies(len(row_order) >= 1, result[0] == 0)",
+        # new row k has the length of old row row_order[k] (the last slot is set from the input
+        # total; that it closes the last row needs row_order to be a permutation: view #perm)
+        f"all(result[k + 1] - result[k] == {_SPAN_IN} for k in range(len(row_order) - 1))",
+        "result[len(result) - 1] == indptr_in[len(indptr_in) - 1]",
+    ],
+    loops={0: [
+        "len(new_indptr) == len(indptr_in)",
+        "implies(_i == 0, ct == 0)",
+        "implies(_i >= 1, new_indptr[0] == 0)",
+        "implies(_i >= 1, ct == new_indptr[_i - 1] + indptr_in[_it[_i - 1] + 1] - indptr_in[_it[_i - 1]])",
+        "all(new_indptr[k + 1] - new_indptr[k] == indptr_in[_it[k] + 1] - indptr_in[_it[k]] "
+        "for k in range(_i - 1))",
+    ]},
+)
+
+
+def _call_precompute(indptr_in, row_order):
+    from cell_type_mapper.utils.sparse_utils import precompute_indptr
+    return precompute_indptr(indptr_in, row_order)
+
+
+contract(
+    M + 'precompute_indptr#perm',
+    properties=['C13'], mode='bounded',
+    native=dict(gen=_gen_reorder, call=_call_precompute,
+                bound='random CSR pointer arrays with <= 5 rows, random permutations'),
+    params=dict(indptr_in='Arr[Int]', row_order='Arr[Int]'),
+    returns='Arr[Int]',
+    requires=WF_PTR('indptr_in') + [
+        "len(row_order) == len(indptr_in) - 1",
+        "all(0 <= row_order[k] < len(indptr_in) - 1 for k in range(len(row_order)))",
+        "dupfree(row_order)",
+    ],
+    ensures=[f"all(result[k + 1] - result[k] == {_SPAN_IN} for k in range(len(row_order)))",
+             "sorted_nondecr(result)"],
+    note="closing the last row needs sum over a permutation = total (induction); bounded",
+)
+
+
+def _gen_downsample(rng, size):
+    import numpy as np
+    g = _gen_csr(rng, size, with_spec=False)
+    n = len(g['indptr']) - 1
+    keep = [rng.randrange(n) for _ in range(rng.randint(0, n + 1))] if n > 0 else []
+    return dict(indptr_old=g['indptr'], indices_old=g['indices'], indptr_to_keep=np.array(keep, dtype=int))
+
+
+_SPAN_OLD = "indptr_old[indptr_to_keep[k] + 1] - indptr_old[indptr_to_keep[k]]"
+
+contract(
+    M + 'downsample_indptr',
+    properties=['C13'],
+    native=dict(gen=_gen_downsample),
+    params=dict(indptr_old='Arr[Int]', indices_old='Arr[Int]', indptr_to_keep='Arr[Int]'),
+    returns='Tuple[Arr[Int],Arr[Int]]',
+    locals={'__zeros_elem__': 'Int'},     # np.zeros(..., dtype=indptr_old.dtype): integer arrays
+    ghost=dict(solver_first={'auto_config': False, 'mbqi': False}),
+    requires=WF_PTR('indptr_old') + [
+        "all(0 <= indptr_old[i] <= len(indices_old) for i in range(len(indptr_old)))",
+        "all(0 <= indptr_to_keep[k] < len(indptr_old) - 1 for k in range(len(indptr_to_keep)))",
+    ],
+    ensures=[
+        "len(result[0]) == len(indptr_to_keep) + 1", "result[0][0] == 0",
+        # kept slice k has the length of the old slice indptr_to_keep[k] ...
+        f"all(result[0][k + 1] - result[0][k] == {_SPAN_OLD} for k in range(len(indptr_to_keep)))",
+        "len(result[1]) == result[0][len(indptr_to_keep)]",
+        # ... and its entries, in order
+        "all(result[1][result[0][k] + j] == indices_old[indptr_old[indptr_to_keep[k]] + j] "
+        f"for k in range(len(indptr_to_keep)) for j in range({_SPAN_OLD}))",
+    ],
+    loops={
+        0: ["len(indptr_new) == len(indptr_to_keep) + 1",
+            "implies(_i == 0, ct_new == 0)",
+            "implies(_i >= 1, indptr_new[0] == 0)",
+            "implies(_i >= 1, ct_new == indptr_new[_i - 1] + indptr_old[_it[_i - 1] + 1] - indptr_old[_it[_i - 1]])",
+            "all(indptr_new[k + 1] - indptr_new[k] == indptr_old[_it[k] + 1] - indptr_old[_it[k]] "
+            "for k in range(_i - 1))",
+            "all(indptr_new[a] <= indptr_new[b] for a in range(_i) for b in range(_i) if a <= b)",
+            "implies(_i >= 1, indptr_new[_i - 1] <= ct_new)", "ct_new >= 0"],
+        1: ["len(indices_new) == ct_new", "0 <= ii",
+            # positional form (clean trigger indices_new[e]): entry e of kept slice k
+            "all(implies(indptr_new[k] <= e and e < indptr_new[k + 1], "
+            "indices_new[e] == indices_old[indptr_old[indptr_to_keep[k]] + e - indptr_new[k]]) "
+            "for k in range(min(ii, len(indptr_to_keep))) for e in range(len(indices_new)))"],
+    },
+)
+
+
+def _gen_mask(rng, size):
+    g = _gen_csr(rng, size, with_spec=False)
+    n_cols = (max(g['indices']) + 1) if len(g['indices']) else 1
+    kept = [c for c in range(n_cols) if rng.random() < 0.6]
+    new = list(range(len(kept)))
+    rng.shuffle(new)
+    return dict(indptr_old=g['indptr'], indices_old=g['indices'],
+                indices_map={int(c): int(v) for c, v in zip(kept, new)})
+
+
+contract(
+    M + 'mask_indptr_by_indices',
+    properties=['C13'], mode='bounded',
+    native=dict(gen=_gen_mask, weight=2,
+                bound='random canonical CSR patterns <= 5x5, random injective column maps'),
+    params=dict(indptr_old='Arr[Int]', indices_old='Arr[Int]', indices_map='Dict[Int,Int]'),
+    returns='Tuple[Arr[Int],Arr[Int]]',
+    requires=WF_PTR('indptr_old') + [
+        "indptr_old[0] == 0 and indptr_old[len(indptr_old) - 1] == len(indices_old)",
+        "all(indices_map[c] >= 0 for c in indices_map)",
+    ],
+    ensures=[
+        "len(result[0]) == len(indptr_old)", "result[0][0] == 0",
+        "result[0][len(result[0]) - 1] == len(result[1])", "sorted_nondecr(result[0])",
+        # slice i keeps exactly the mapped values of the surviving entries, sorted
+        "all([int(v) for v in result[1][result[0][i]:result[0][i + 1]]] == "
+        "sorted(indices_map[int(v)] for v in indices_old[indptr_old[i]:indptr_old[i + 1]] "
+        "if int(v) in indices_map) for i in range(len(indptr_old) - 1))",
+    ],
+    note="bool-array sums and np.sort per slice: counting + sorting argument, kept bounded",
+)
+
+
+# ---------------------------------------------------------------------------------------------
+# merge_csr: concatenation of CSR pieces.  cat_off(xs, k) = sum(len(xs[q]) for q < k) (spec
+# function, pyvc/ext/sparse.py): piece q starts at entry D(q) = cat_off(data_list, q) and at row
+# R(q) = row_off(indptr_list, q) = sum(len(indptr_list[p]) - 1 for p < q) of the merged matrix.
+# ---------------------------------------------------------------------------------------------
+def _gen_merge(rng, size):
+    n = rng.randint(1, 4)
+    pieces = [_gen_csr(rng, max(1, size - 1), with_spec=False) for _ in range(n)]
+    return dict(data_list=[p['data'] for p in pieces], indices_list=[p['indices'] for p in pieces],
+                indptr_list=[p['indptr'] for p in pieces])
+
+
+_PIECES_WF = [
+    "len(data_list) >= 1",
+    "len(indices_list) == len(data_list) and len(indptr_list) == len(data_list)",
+    # (every piece holds at least one row: guaranteed by the only caller, _load_disjoint_csr)
+    "all(len(indptr_list[q]) >= 2 and len(indices_list[q]) == len(data_list[q]) "
+    "for q in range(len(data_list)))",
+    # every piece is a CSR matrix of its own: pointers start at 0 and end at its entry count
+    "all(indptr_list[q][0] == 0 and indptr_list[q][len(indptr_list[q]) - 1] == len(data_list[q]) "
+    "for q in range(len(data_list)))",
+]
+
+contract(
+    M + 'merge_csr',
+    properties=['C13', 'C05'],
+    native=dict(gen=_gen_merge),
+    params=dict(data_list='List[Arr[Real]]', indices_list='List[Arr[Int]]', indptr_list='List[Arr[Int]]'),
+    returns='Tuple[Arr[Real],Arr[Int],Arr[Int]]',
+    locals={'__zeros_elem__': 'Real'},
+    requires=_PIECES_WF,
+    ensures=[
+        "len(result[0]) == cat_off(data_list, len(data_list))",
+        "len(result[1]) == len(result[0])",
+        "len(result[2]) == row_off(indptr_list, len(indptr_list)) + 1",
+        # entries of piece q, in order, from offset D(q)
+        "all(result[0][cat_off(data_list, q) + e] == data_list[q][e] "
+        "for q in range(len(data_list)) for e in range(len(data_list[q])))",
+        "all(result[1][cat_off(data_list, q) + e] == indices_list[q][e] "
+        "for q in range(len(data_list)) for e in range(len(data_list[q])))",
+        # pointers of piece q re-based by D(q), from row R(q) ...
+        "all(result[2][row_off(indptr_list, q) + j] == indptr_list[q][j] + cat_off(data_list, q) "
+        "for q in range(len(data_list)) for j in range(len(indptr_list[q]) - 1))",
+        # ... and at every piece boundary (and in the last slot) the number of entries before it
+        "all(result[2][row_off(indptr_list, q)] == cat_off(data_list, q) "
+        "for q in range(len(data_list) + 1))",
+    ],
+    loops={
+        0: ["n_data == cat_off(data_list, _i)"],
+        1: ["n_indptr == row_off(indptr_list, _i)"],
+        2: ["i0 == cat_off(data_list, _i)", "ptr0 == row_off(indptr_list, _i)",
+            "len(data) == n_data and len(indices) == n_data and len(indptr) == n_indptr",
+            "all(data[cat_off(data_list, q) + e] == data_list[q][e] "
+            "for q in range(_i) for e in range(len(data_list[q])))",
+            "all(indices[cat_off(data_list, q) + e] == indices_list[q][e] "
+            "for q in range(_i) for e in range(len(data_list[q])))",
+            "all(indptr[row_off(indptr_list, q) + j] == indptr_list[q][j] + cat_off(data_list, q) "
+            "for q in range(_i) for j in range(len(indptr_list[q]) - 1))",
+            "all(indptr[row_off(indptr_list, q)] == cat_off(data_list, q) for q in range(_i))",
+            ],
+    },
+)
+
+
+# ---------------------------------------------------------------------------------------------
+# utils.utils.merge_index_list (C05.d) - registered here because its only caller is
+# sparse_utils._load_disjoint_csr.  BOUNDED: a deductive proof was attempted (closed-form
+# invariants over the break positions, run lemma for np.diff, prefix-sum frame lemma) and reached
+# 39/40 obligations, but several VCs needed 5-11 s and flipped between proved / unknown under
+# load; per the rules a flaky proof is demoted.  The clause is the full functional specification:
+# the result is the list of maximal runs of the requested index set.
+# ---------------------------------------------------------------------------------------------
+def _maximal_runs(index_list):
+    """reference: maximal runs [lo, hi) of consecutive integers of set(index_list), ascending"""
+    vals = sorted(set(int(v) for v in index_list))
+    out = []
+    for v in vals:
+        if out and out[-1][1] == v:
+            out[-1][1] = v + 1
+        else:
+            out.append([v, v + 1])
+    return [(a, b) for a, b in out]
+
+
+def _enum_index_list(size):
+    import itertools
+    import numpy as np
+    # every non-empty strictly increasing list over {0..7} (what the caller passes) ...
+    for r in range(1, 9):
+        for c in itertools.combinations(range(8), r):
+            yield dict(index_list=np.array(c, dtype=int))
+    # ... and every list (any order, repeats) of length <= 4 over {0..4}
+    for r in range(1, 5):
+        for c in itertools.product(range(5), repeat=r):
+            yield dict(index_list=list(c))
+
+
+contract(
+    'cell_type_mapper.utils.utils.merge_index_list',
+    properties=['C05'], mode='bounded',
+    native=dict(enumerate=_enum_index_list, env=dict(maximal_runs=_maximal_runs),
+                bound='exhaustive: all 255 non-empty strictly increasing lists over {0..7} and all '
+                      '780 lists of length <= 4 over {0..4} (any order, with repeats)'),
+    params=dict(index_list='List[Int]'),
+    returns='List[Tuple[Int,Int]]',
+    requires=["len(index_list) >= 1"],      # S-EMPTY (new finding): the empty list raises IndexError
+    ensures=[
+        "[(int(a), int(b)) for a, b in result] == maximal_runs(index_list)",
+        # consequences spelt out: non-empty, strictly separated, covering exactly the requested set
+        "all(result[k][0] < result[k][1] for k in range(len(result)))",
+        "all(result[k][1] < result[k + 1][0] for k in range(len(result) - 1))",
+        "sum(int(b) - int(a) for a, b in result) == len(set(int(v) for v in index_list))",
+        "all(any(a <= v and v < b for a, b in result) for v in index_list)",
+    ],
+)
+
+
+# ---------------------------------------------------------------------------------------------
+# _load_disjoint_csr (C05.d): rows of a CSR matrix in the requested order.  BOUNDED: the slice
+# stores of the un-sorting loop stay inside the output only because the row spans visited through
+# a permutation add up to the total (sum over a permutation - induction); merge_csr /
+# _merge_csr_chunk / _load_sparse, which it is built from, are proved above.
+# S-3: a repeated row -> IndexError (kept as `dupfree`); S-EMPTY (new finding): an empty list -> IndexError.
+# ---------------------------------------------------------------------------------------------
+def _dense_of(data, indices, indptr, n_cols):
+    import numpy as np
+    n_rows = len(indptr) - 1
+    out = np.zeros((n_rows, n_cols))
+    for i in range(n_rows):
+        for k in range(int(indptr[i]), int(indptr[i + 1])):
+            out[i, int(indices[k])] = data[k]
+    return out
+
+
+def _same_rows(result, row_index_list, data, indices, indptr):
+    import numpy as np
+    n_cols = (int(max(indices)) + 1) if len(indices) else 1
+    full = _dense_of(data, indices, indptr, n_cols)
+    got = _dense_of(result[0], result[1], result[2], n_cols)
+    return got.shape[0] == len(row_index_list) and np.array_equal(got, full[list(row_index_list)])
+
+
+def _enum_disjoint(size):
+    import itertools
+    import numpy as np
+    mats = [
+        [[1, 0, 2], [0, 0, 0], [0, 3, 0], [4, 5, 6], [0, 0, 7]],
+        [[0, 0, 0], [0, 0, 0], [0, 0, 0], [0, 0, 0], [0, 0, 1]],
+        [[1, 2, 3], [4, 5, 6], [7, 8, 9], [1, 1, 1], [2, 2, 2]],
+        [[0, 1], [0, 0], [2, 0], [0, 0], [0, 0]],
+        [[5], [0], [6], [7], [0]],
+    ]
+    for m in mats:
+        m = np.array(m, dtype=float)
+        data, indices, indptr = [], [], [0]
+        for row in m:
+            for j, v in enumerate(row):
+                if v != 0:
+                    data.append(v)
+                    indices.append(j)
+            indptr.append(len(data))
+        d, i, p = np.array(data), np.array(indices, dtype=int), np.array(indptr, dtype=int)
+        for r in range(1, 6):
+            for rows in itertools.permutations(range(5), r):
+                yield dict(row_index_list=list(rows), data=d, indices=i, indptr=p)
+
+
+contract(
+    M + '_load_disjoint_csr',
+    properties=['C05'], mode='bounded',
+    native=dict(enumerate=_enum_disjoint, env=dict(same_rows=_same_rows),
+                bound='exhaustive: every duplicate-free row list (all orders, 325 lists) over 5 '
+                      'matrices with 5 rows (empty rows, all-zero, dense, single column)'),
+    params=dict(row_index_list='List[Int]', data='Arr[Real]', indices='Arr[Int]', indptr='Arr[Int]'),
+    returns='Tuple[Arr[Real],Arr[Int],Arr[Int]]',
+    requires=WF_CSR + ["len(row_index_list) >= 1", "dupfree(row_index_list)",
+                       "all(0 <= r < len(indptr) - 1 for r in row_index_list)"],
+    ensures=[
+        # output row k is row row_index_list[k] of the matrix, values and columns
+        "same_rows(result, row_index_list, data, indices, indptr)",
+        "len(result[2]) == len(row_index_list) + 1 and result[2][0] == 0",
+        "result[2][len(result[2]) - 1] == len(result[0]) and len(result[1]) == len(result[0])",
+        "sorted_nondecr(result[2])",
+    ],
 )
